@@ -375,3 +375,142 @@ Example lite_plan_core_example :
   /\ map (fun c => (c_start c, c_end c, c_pos c)) (lite_plan [[98%N]] true false 10 s)
      = [(0, 2, 6); (2, 4, 6); (6, 8, 9); (8, 9, 9)].
 Proof. vm_compute. split; reflexivity. Qed.
+
+(* ---- 19. the same for EVERY sink behaviour and EVERY detection mode, positions included ----
+   For every reply function without Fail (= every sink that continues or stops, at any call; a deterministic
+   stateful sink is such a function by C16 `stateful_sink_slice`; Fail = I/O error of the printer is C16's),
+   every detection mode of the Core model's Config (None, Quit b, Convert b), every matcher meeting the
+   find_by_line_fast contract, inverted or not, passthru or not, any terminator, no context lines:
+   the Core model's SliceByLine::run delivers exactly the events of this model's `slice_run` over the plan,
+   run with the same replies (`sink_of r`) and the same mode — including every binary_data call and the byte
+   count passed to finish when the sink stops the search (so `c_pos` is Core::pos() at that call).
+   `fastb` says which line path Core takes (constant during a search without stop_on_nonmatch);
+   `core_plan_on fast` differs from `core_plan` only in c_pos under inversion on the slow path. *)
+From RG Require Proofs.LitePlanSim.
+
+Theorem core_run_eq_plan_run :
+  forall (cfg : SearcherCore.config) (M : SearcherCore.matcher) (r : nat -> SearcherCore.reply),
+    (forall i, r i <> SearcherCore.Fail) ->
+    SearcherCore.c_before cfg = 0 -> SearcherCore.c_after cfg = 0 -> SearcherCore.c_stop_on_nonmatch cfg = false ->
+    forall s : bytes, FastPathProofs.find_spec cfg M s ->
+    LitePlanCore.result14 (Glue.slice_by_line_run cfg M r s) =
+    Some (rev (snd (slice_run (LitePlanCore.sink_of r) (LitePlanCore.mode14 (SearcherCore.c_binary cfg))
+                      Glue.default_buffer_capacity s
+                      (LitePlanCore.core_plan_on (LitePlanSim.fastb cfg M) cfg (SearcherCore.m_is_match M) s)
+                      (length s) (0, [])))).
+Proof. exact LitePlanSim.slice_sim_proof. Qed.
+Print Assumptions core_run_eq_plan_run.
+
+(* for lite_plan: whenever its positions are Core's — not inverted, or passthru, or the fast path runs (which
+   is the case for the RegexMatcher of the C14 runs: it advertises the searcher's line terminator) *)
+Theorem lite_run_eq_core_run :
+  forall (cfg : SearcherCore.config) (M : SearcherCore.matcher) (needles : list bytes) (r : nat -> SearcherCore.reply),
+    (forall i, r i <> SearcherCore.Fail) ->
+    SearcherCore.c_before cfg = 0 -> SearcherCore.c_after cfg = 0 -> SearcherCore.c_stop_on_nonmatch cfg = false ->
+    forall s : bytes, FastPathProofs.find_spec cfg M s -> LitePlanProofs.needle_matcher cfg M needles s ->
+    LitePlanSim.fastb cfg M = true \/ SearcherCore.c_invert cfg = false \/ SearcherCore.c_passthru cfg = true ->
+    LitePlanCore.result14 (Glue.slice_by_line_run cfg M r s) =
+    Some (rev (snd (slice_run (LitePlanCore.sink_of r) (LitePlanCore.mode14 (SearcherCore.c_binary cfg))
+                      Glue.default_buffer_capacity s
+                      (lite_plan needles (SearcherCore.c_invert cfg) (SearcherCore.c_passthru cfg)
+                                 (LineTerm.lt_byte (SearcherCore.c_lt cfg)) s)
+                      (length s) (0, [])))).
+Proof. exact LitePlanSim.lite_sim_proof. Qed.
+Print Assumptions lite_run_eq_core_run.
+
+(* the side condition is needed: inverted, no passthru, a matcher searched by the SLOW path (no terminator
+   advertised): when the sink stops at the first line, Core reports the end of that line, lite_plan's c_pos
+   (which mirrors match_by_line_fast_invert) the end of the next matching line.  Events agree, the byte count
+   at finish does not.  (`core_plan_on false` is right there: core_run_eq_plan_run.) *)
+Theorem lite_plan_slow_invert_pos_refuted :
+  exists (cfg : SearcherCore.config) (M : SearcherCore.matcher) (needles : list bytes)
+         (r : nat -> SearcherCore.reply) (s : bytes),
+    (forall i, r i <> SearcherCore.Fail) /\
+    SearcherCore.c_before cfg = 0 /\ SearcherCore.c_after cfg = 0 /\ SearcherCore.c_stop_on_nonmatch cfg = false /\
+    LitePlanProofs.needle_matcher cfg M needles s /\
+    LitePlanSim.fastb cfg M = false /\
+    LitePlanCore.result14 (Glue.slice_by_line_run cfg M r s) =
+      Some [EBegin; EMatched 0 [97; 10]%N; EFinish 2 None] /\
+    rev (snd (slice_run (LitePlanCore.sink_of r) BNone 4 s
+                (lite_plan needles true false 10 s) (length s) (0, []))) =
+      [EBegin; EMatched 0 [97; 10]%N; EFinish 4 None].
+Proof.
+  set (cfg := {| SearcherCore.c_lt := LineTerm.LTByte 10; SearcherCore.c_invert := true; SearcherCore.c_after := 0;
+                 SearcherCore.c_before := 0; SearcherCore.c_passthru := false; SearcherCore.c_line_number := false;
+                 SearcherCore.c_stop_on_nonmatch := false; SearcherCore.c_binary := SearcherCore.BNone;
+                 SearcherCore.c_multi_line := false |}).
+  exists cfg,
+    (ScriptedMatcher.scripted cfg
+       [ {| ScriptedMatcher.n_anch := false; ScriptedMatcher.n_bytes := [98]%N; ScriptedMatcher.n_real := true |} ]
+       true 0%N),
+    [[98%N]], (LitePlanCore.stop_at 1), [97; 10; 98; 10]%N.
+  split; [intro i; unfold LitePlanCore.stop_at; destruct (Nat.ltb i 1); discriminate|].
+  vm_compute. repeat split; repeat constructor.
+Qed.
+Print Assumptions lite_plan_slow_invert_pos_refuted.
+
+(* 6. inside the Core model itself: Quit(b), any sink behaviour — no delivered line contains b *)
+Theorem core_quit_no_nul_in_events :
+  forall (cfg : SearcherCore.config) (M : SearcherCore.matcher) (r : nat -> SearcherCore.reply) (b : byte),
+    (forall i, r i <> SearcherCore.Fail) ->
+    SearcherCore.c_before cfg = 0 -> SearcherCore.c_after cfg = 0 -> SearcherCore.c_stop_on_nonmatch cfg = false ->
+    SearcherCore.c_binary cfg = SearcherCore.BQuit b ->
+    forall s : bytes, FastPathProofs.find_spec cfg M s ->
+    exists evs, Glue.slice_by_line_run cfg M r s = Glue.RunOk evs /\
+      forall e, In e evs ->
+        match e with
+        | SearcherCore.EMatched _ _ l | SearcherCore.EContext _ _ _ l => ~ In b l
+        | _ => True
+        end.
+Proof. exact LitePlanSim.core_quit_events_free_proof. Qed.
+Print Assumptions core_quit_no_nul_in_events.
+
+(* reader strategy: Core::roll without context lines consumes the whole buffer, as lite_roll *)
+Theorem lite_roll_eq_core :
+  forall (cfg : SearcherCore.config) (c : SearcherCore.core) (buf : bytes),
+    SearcherCore.c_before cfg = 0 -> SearcherCore.c_after cfg = 0 ->
+    fst (SearcherCore.roll cfg c buf) = fst (lite_roll tt buf).
+Proof. exact LitePlanSim.lite_roll_eq_core_proof. Qed.
+Print Assumptions lite_roll_eq_core.
+
+(* non-vacuity of 19: a Convert(0) run through both models with a sink that stops at the second line
+   (inverted fast path): binary_data is announced by the initial sniff, the line holding the NUL is delivered
+   after it, finish reports min(offset of the NUL, Core::pos()) *)
+Example core_run_example :
+  let cfg := {| SearcherCore.c_lt := LineTerm.LTByte 10; SearcherCore.c_invert := true; SearcherCore.c_after := 0;
+                SearcherCore.c_before := 0; SearcherCore.c_passthru := false; SearcherCore.c_line_number := true;
+                SearcherCore.c_stop_on_nonmatch := false; SearcherCore.c_binary := SearcherCore.BConvert 0;
+                SearcherCore.c_multi_line := false |} in
+  let M := ScriptedMatcher.scripted cfg
+             [ {| ScriptedMatcher.n_anch := false; ScriptedMatcher.n_bytes := [98]%N; ScriptedMatcher.n_real := true |} ]
+             true 1%N in
+  let s := [97; 10; 120; 0; 10; 98; 10; 121; 10]%N in
+  LitePlanSim.fastb cfg M = true /\
+  LitePlanCore.result14 (Glue.slice_by_line_run cfg M (LitePlanCore.stop_at 3) s) =
+    Some (rev (snd (slice_run (LitePlanCore.sink_of (LitePlanCore.stop_at 3)) (BConvert 0) Glue.default_buffer_capacity s
+                      (lite_plan [[98%N]] true false 10 s) (length s) (0, [])))) /\
+  LitePlanCore.result14 (Glue.slice_by_line_run cfg M (LitePlanCore.stop_at 3) s) =
+    Some [EBegin; EBinary 3; EMatched 0 [97; 10]%N; EMatched 2 [120; 0; 10]%N; EFinish 3 (Some 3)].
+Proof. vm_compute. repeat split; reflexivity. Qed.
+
+Check lite_plan_eq_core :
+  forall (cfg : SearcherCore.config) (M : SearcherCore.matcher) (needles : list bytes),
+    SearcherCore.c_binary cfg = SearcherCore.BNone -> SearcherCore.c_before cfg = 0 ->
+    SearcherCore.c_after cfg = 0 -> SearcherCore.c_stop_on_nonmatch cfg = false ->
+    forall s : bytes, FastPathProofs.find_spec cfg M s -> LitePlanProofs.needle_matcher cfg M needles s ->
+    LitePlanCore.result14 (Glue.slice_by_line_run cfg M (fun _ => SearcherCore.Continue) s) =
+    Some (EBegin
+          :: map (call_event 0 s)
+                 (lite_plan needles (SearcherCore.c_invert cfg) (SearcherCore.c_passthru cfg)
+                            (LineTerm.lt_byte (SearcherCore.c_lt cfg)) s)
+          ++ [EFinish (length s) None]).
+Check core_run_eq_plan_run :
+  forall (cfg : SearcherCore.config) (M : SearcherCore.matcher) (r : nat -> SearcherCore.reply),
+    (forall i, r i <> SearcherCore.Fail) ->
+    SearcherCore.c_before cfg = 0 -> SearcherCore.c_after cfg = 0 -> SearcherCore.c_stop_on_nonmatch cfg = false ->
+    forall s : bytes, FastPathProofs.find_spec cfg M s ->
+    LitePlanCore.result14 (Glue.slice_by_line_run cfg M r s) =
+    Some (rev (snd (slice_run (LitePlanCore.sink_of r) (LitePlanCore.mode14 (SearcherCore.c_binary cfg))
+                      Glue.default_buffer_capacity s
+                      (LitePlanCore.core_plan_on (LitePlanSim.fastb cfg M) cfg (SearcherCore.m_is_match M) s)
+                      (length s) (0, [])))).
